@@ -5,6 +5,7 @@ import Zc.Proofs.LinkBridgeK1
 import Zc.Proofs.LinkBridgeK3
 import Zc.Proofs.LinkBridgeK5
 import Zc.Proofs.LinkBridgeK4
+import Zc.Proofs.LinkNaming
 import Zc.GenFacts.Link
 /-! # C07 — end-to-end discovery converges to the set of registered services
 
@@ -526,5 +527,203 @@ example : (missing Cfg.paper tr 4600000).length = 1
 example : (800 : Int) + effTtl Cfg.paper 4500 < 4600000 ∧ heldFresh Cfg.paper tr 1 s 4600000 = true ∧ live tr b s = true
     ∧ registered Cfg.paper tr s = true ∧ KF Cfg.paper tr 4600000 = true := by decide
 end C07ex3
+
+/-! A fourth run exercises the responder bridge (K4): non-vacuity of `Bridge.ResponderRun` / `Bridge.Responders`.  Host 0 has
+registered `a._x._tcp.local.`; host 1's QM question for the type reaches it at 3000 ms (no known answers).  C03's answer computation
+on the registry after `register z` offers the pointer with SRV, TXT, A and NSEC as additionals; the reply model (no cache sighting,
+one PTR question) aggregates it with draw 50; the queue timer multicasts it, complete, at 3050 ms.  A second datagram with the same
+bytes arrives at 3400 ms and is dropped by the duplicate guard — its answer is the send at 3050.  A purge of an unrelated id at 5 s
+shows the D5 block.  The numbering of names is the injective `Bridge.encS`. -/
+namespace C07ex4
+open Zc.Bridge Zc.Reply
+
+/-- the registered service, as C03's registry holds it -/
+def z : Zc.Svc := { type := "_x._tcp.local.", name := "a._x._tcp.local.", server := "h0.local.", port := 80, weight := 0, priority := 0,
+                    text := [], hostTtl := 120, otherTtl := 4500, v4 := [[10, 0, 0, 1]], v6 := [] }
+def N : Naming := ⟨0, encS, encS⟩
+/-- its link identity -/
+def s : Link.Svc := sigmaZ id N z
+def ops : List RegOp := [.register z]
+def qs : List Question := [⟨"_x._tcp.local.", 12, 1, false⟩]
+/-- the table of record objects: PTR, SRV, TXT, A, NSEC of the service -/
+def tbl : List Rec := [RespSpec.ptrOf z, RespSpec.srvOf z, RespSpec.txtOf z] ++ RespSpec.addrsOf z ++ RespSpec.nsecOf z
+/-- the question packet as the reply model reads it: one strategy (the type's bucket), one candidate (the pointer, with SRV, TXT, A,
+NSEC as additionals) -/
+def p : Pkt := { dataId := 1, now := 3000, id := 0, flags := 0, numAuth := 0, nq := 1, q0type := 12,
+                 items := [{ qu := false, cands := [{ id := 0, ttl := 4500, adds := [1, 2, 3, 4], sup := false }] }], known := [] }
+
+def ks : List KEv :=
+  [.blk (.rx 3000 1 5353 1 40 false (.query p) [] [50]), .blk (.qfire 3050 false),
+   .blk (.rx 3400 1 5353 1 40 false (.query p) [] []), .purge 5000 [7]]
+
+def rt : List (Host × KEv × StepOut) := match krun {} 0 ks with | .ok (_, _, rt) => rt | .error _ => []
+def hEnd : Host := match krun {} 0 ks with | .ok (h, _, _) => h | .error _ => {}
+def cEnd : Int := match krun {} 0 ks with | .ok (_, c, _) => c | .error _ => 0
+
+theorem krun_ok : krun {} 0 ks = .ok (hEnd, cEnd, rt) := by
+  unfold hEnd cEnd rt
+  cases h : krun {} 0 ks with
+  | ok v => rfl
+  | error m =>
+    exfalso
+    have : (krun {} 0 ks).toBool = true := by decide
+    rw [h] at this
+    cases this
+
+
+def ann : List Item := [.ptr s 4500 true]
+def qy : List Item := [.query s.ty [] false]
+/-- host 1's QM question for the type reaches host 0 at 3000 ms; the pointer is aggregated (draw 50) and multicast, complete, at
+3050 ms; a second datagram with the same bytes arrives at 3400 ms and is dropped by the duplicate guard; an unrelated purge at 5 s -/
+def tr : Trace :=
+  [⟨0, .up 0⟩, ⟨0, .up 1⟩, ⟨0, .reg s⟩,
+   ⟨3000, .send 1 0 none qy⟩, ⟨3000, .dlv 0 1 0 true qy⟩,
+   ⟨3050, .send 0 1 none ann⟩,
+   ⟨3400, .send 1 2 none qy⟩, ⟨3400, .dlv 2 1 0 true qy⟩]
+
+def content (d : Nat) : List Item := if d = 1 then qy else []
+
+theorem mem_ks {k : KEv} (h : k ∈ ks) :
+    k = .blk (.rx 3000 1 5353 1 40 false (.query p) [] [50]) ∨ k = .blk (.qfire 3050 false) ∨
+    k = .blk (.rx 3400 1 5353 1 40 false (.query p) [] []) ∨ k = .purge 5000 [7] := by
+  simpa [ks] using h
+
+theorem run : KRun {} 0 ks hEnd cEnd rt := KRun.of_krun _ _ _ _ _ _ krun_ok
+
+/-- times, outputs and queue lengths of the blocks -/
+theorem rt_view : rt.map (fun x => (x.2.1.time, x.2.2.outs, x.1.outQ.groups.length, x.1.delayQ.groups.length)) =
+    [(3000, [], 0, 0), (3050, [Out.mcast [0] [1, 2, 3, 4]], 1, 0), (3400, [], 0, 0), (5000, [], 0, 0)] := by decide
+
+
+theorem view_of {x : Host × KEv × StepOut} (hx : x ∈ rt) :
+    (x.2.1.time = 3000 ∧ x.2.2.outs = []) ∨ (x.2.1.time = 3050 ∧ x.2.2.outs = [Out.mcast [0] [1, 2, 3, 4]]) ∨
+    (x.2.1.time = 3400 ∧ x.2.2.outs = []) ∨
+    (x.2.1.time = 5000 ∧ x.2.2.outs = [] ∧ x.1.outQ.groups.length = 0 ∧ x.1.delayQ.groups.length = 0) := by
+  have := List.mem_map_of_mem (f := fun x : Host × KEv × StepOut => (x.2.1.time, x.2.2.outs, x.1.outQ.groups.length, x.1.delayQ.groups.length)) hx
+  rw [rt_view] at this
+  simp only [List.mem_cons, Prod.mk.injEq, List.not_mem_nil, or_false] at this
+  rcases this with ⟨h1, h2, _, _⟩ | ⟨h1, h2, _, _⟩ | ⟨h1, h2, _, _⟩ | ⟨h1, h2, h3, h4⟩
+  · exact Or.inl ⟨h1, h2⟩
+  · exact Or.inr (Or.inl ⟨h1, h2⟩)
+  · exact Or.inr (Or.inr (Or.inl ⟨h1, h2⟩))
+  · exact Or.inr (Or.inr (Or.inr ⟨h1, h2, h3, h4⟩))
+
+theorem fromRegistry : FromRegistry id 4500 tbl p ops qs [] where
+  clean := by decide
+  addr := by unfold AllAddr; decide
+  items := rfl
+  known := rfl
+  inTable := by decide
+
+/-- the pointer question of the datagram, as the link model reads it, describes the packet; the registry holds the service -/
+theorem itemOf (t : Int) : ItemOf id tr N 4500 t false ops qs [] s.ty [] false where
+  quFlag := by intro h; cases h
+  question := ⟨⟨"_x._tcp.local.", 12, 1, false⟩, by simp [qs], rfl, rfl, rfl⟩
+  knownListed := by intro o ho; cases ho
+  registered := by
+    intro s' hs' _ _ _
+    have : s' = s := by simpa [svcsOf, regs, tr] using hs'
+    subst this
+    exact ⟨z, by decide, rfl, by decide, by decide⟩
+
+/-- **non-vacuity of `Bridge.ResponderRun`**: host 0 of this run is a responder run — the history is accepted by the reply model
+(`krun_ok`), its one query is aggregated and flushed, the second copy is dropped by the duplicate guard, the candidates are C03's on
+the registry after `register z` -/
+theorem responderRun : ResponderRun id tr 4600 N 4500 tbl (fun a => a) content 0 ks hEnd cEnd rt := by
+  have hev := run.evs
+  have mem_ev : ∀ x ∈ rt, x.2.1 ∈ ks := fun x hx => by rw [← hev]; exact List.mem_map_of_mem hx
+  have ex_ev : ∀ k ∈ ks, ∃ x ∈ rt, x.2.1 = k := by
+    intro k hk
+    rw [← hev, List.mem_map] at hk
+    exact hk
+  refine { tyInj := encS_inj, svInj := encS_inj, run := run, covers := by decide, noTC := ?_, purgeKeeps := ?_, rx := ?_,
+           isQuery := ?_, query := ?_, outs := ?_, purge := ?_ }
+  · intro t addr port dataId size hasQu p' seen draws hm
+    rcases mem_ks hm with h | h | h | h <;> cases h <;> decide
+  · intro x hx t W hxe d g hg
+    exfalso
+    have hk := mem_ev x hx
+    rw [hxe] at hk
+    rcases mem_ks hk with h | h | h | h <;> cases h
+    rcases view_of hx with ⟨h1, _⟩ | ⟨h1, _⟩ | ⟨h1, _⟩ | ⟨_, _, h3, h4⟩
+    · rw [hxe] at h1; cases h1
+    · rw [hxe] at h1; cases h1
+    · rw [hxe] at h1; cases h1
+    · cases d
+      · have : x.1.outQ.groups = [] := List.eq_nil_of_length_eq_zero h3
+        simp only [Host.q, Bool.false_eq_true, if_false, this] at hg
+        cases hg
+      · have : x.1.delayQ.groups = [] := List.eq_nil_of_length_eq_zero h4
+        simp only [Host.q, if_true, this] at hg
+        cases hg
+  · intro e he _
+    have he' : e = ⟨3000, 0, 1, 0, true, qy⟩ ∨ e = ⟨3400, 2, 1, 0, true, qy⟩ := by simpa [dlvs, tr] using he
+    rcases he' with rfl | rfl
+    · obtain ⟨x, hx, hxe⟩ := ex_ev (.blk (.rx 3000 1 5353 1 40 false (.query p) [] [50])) (by simp [ks])
+      exact ⟨x, hx, 1, 5353, 1, 40, false, .query p, [], [50], hxe, rfl, rfl, by decide⟩
+    · obtain ⟨x, hx, hxe⟩ := ex_ev (.blk (.rx 3400 1 5353 1 40 false (.query p) [] [])) (by simp [ks])
+      exact ⟨x, hx, 1, 5353, 1, 40, false, .query p, [], [], hxe, rfl, rfl, by decide⟩
+  · intro x hx t addr port dataId size hasQu kind seen draws hxe ty known qu _
+    have hk := mem_ev x hx
+    rw [hxe] at hk
+    rcases mem_ks hk with h | h | h | h <;> cases h <;> exact ⟨p, rfl⟩
+  · intro x hx t addr port dataId size hasQu p' seen draws hxe
+    have hk := mem_ev x hx
+    rw [hxe] at hk
+    have item : ∀ (t : Int), ∀ ty known qu, Link.Item.query ty known qu ∈ content 1 →
+        ItemOf id tr N 4500 t false ops qs [] ty known qu := by
+      intro t ty known qu hq
+      have : ty = s.ty ∧ known = [] ∧ qu = false := by simpa [content, qy] using hq
+      obtain ⟨rfl, rfl, rfl⟩ := this
+      exact itemOf t
+    rcases mem_ks hk with h | h | h | h <;> cases h
+    · exact ⟨ops, qs, [], fromRegistry, item 3000⟩
+    · exact ⟨ops, qs, [], fromRegistry, item 3400⟩
+  · intro x hx o ho
+    rcases view_of hx with ⟨_, h2⟩ | ⟨h1, h2⟩ | ⟨_, h2⟩ | ⟨_, h2, _⟩
+    · rw [h2] at ho; cases ho
+    · rw [h2] at ho
+      simp only [List.mem_singleton] at ho
+      subst ho
+      refine ⟨⟨3050, 0, 1, none, ann⟩, by decide,
+        ⟨0x8400, [], [RespSpec.ptrOf z], [], [RespSpec.srvOf z, RespSpec.txtOf z] ++ RespSpec.addrsOf z ++ RespSpec.nsecOf z⟩,
+        rfl, h1.symm, rfl, by decide, ⟨by decide, by decide⟩, by decide⟩
+    · rw [h2] at ho; cases ho
+    · rw [h2] at ho; cases ho
+  · intro x hx t W hxe i hi r alias hr
+    have hk := mem_ev x hx
+    rw [hxe] at hk
+    rcases mem_ks hk with h | h | h | h <;> cases h
+    simp only [List.mem_singleton] at hi
+    subst hi
+    have : tbl[7]? = none := by decide
+    rw [this] at hr
+    cases hr
+
+/-- every host of the trace is a responder run (hosts other than 0 process no delivery and send no reply: the empty history) -/
+theorem responders : Responders id tr 4600 := by
+  intro hid
+  by_cases h0 : hid = 0
+  · subst h0
+    exact ⟨N, 4500, tbl, fun a => a, content, 0, ks, hEnd, cEnd, rt, rfl, responderRun⟩
+  · refine ⟨⟨hid, encS, encS⟩, 4500, [], fun a => a, fun _ => [], 4601, [], {}, 4601, [], rfl,
+      { tyInj := encS_inj, svInj := encS_inj, run := KRun.nil _ _, covers := by decide, noTC := ?_, purgeKeeps := ?_, rx := ?_,
+        isQuery := ?_, query := ?_, outs := ?_, purge := ?_ }⟩
+    · intro _ _ _ _ _ _ _ _ _ hm; cases hm
+    · intro x hx; cases hx
+    · intro e he heh
+      have he' : e = ⟨3000, 0, 1, 0, true, qy⟩ ∨ e = ⟨3400, 2, 1, 0, true, qy⟩ := by simpa [dlvs, tr] using he
+      rcases he' with rfl | rfl <;> exact absurd heh.symm h0
+    · intro x hx; cases hx
+    · intro x hx; cases hx
+    · intro x hx; cases hx
+    · intro x hx; cases hx
+
+/-- … so K4 holds on the trace by `C07_K4_from_C03_C11_C12_partial` — and the monitor evaluates to true (the send at 3050 ms answers
+both deliveries) -/
+example : K4 Cfg.paper tr 4600 = true := C07_K4_from_C03_C11_C12_partial id tr 4600 responders
+example : K4 Cfg.paper tr 4600 = true := by decide
+
+end C07ex4
 
 end Zc
